@@ -14,7 +14,7 @@ PROP = 'C07'
 FMT = ['json', 'yml', 'yaml']
 ID0 = [None, 5, -1]
 ID1 = [None, 0, 7]
-NAMES = ['srv', 'no', '1:2', 'schön ☃']
+NAMES = ['srv', 'no', '1:2', 'schön ☃', 'host \U0001F600']
 DPV = [None, 0.0, 0.3]
 DGV = [None, 1.0]
 _CNT = [0]
@@ -132,6 +132,7 @@ def body_attrs(cube, **kw):
     l0, l1, l2 = bool(kw['l0']), bool(kw['l1']), bool(kw['l2'])
     att = idx(kw['att'], 3)
     do = idx(kw['do'], 3) if 'do' in kw else 0
+    kw_l3 = bool(kw['l3']) if 'l3' in kw else False
     with notrace(), reclimit():
         lg, lcf = langs.build_lang(langs.L_INH())
         m, assets = _base(lcf, None, None, 'srv', True)
@@ -152,8 +153,11 @@ def body_attrs(cube, **kw):
             links.append(mb.add_link(m, lcf, 'Dup_G2_O', 'dg2', [assets[2]], 'do2', [assets[1]]))
         if l2:
             links.append(mb.add_link(m, lcf, 'L2', 'as2', [assets[2]], 'os2', [assets[1]]))
+        if kw_l3:
+            links.append(mb.add_link(m, lcf, 'zlink', 'za', [assets[0]], 'zo', [assets[1]]))
         if xl and links:
             links[0].extras = {'note': 'link', 'w': 3}
+            links[-1].extras = {'last': True}
         _attackers(m, assets, att)
         return compare(m, lcf, fmt)
 
@@ -211,16 +215,16 @@ def body_hand(cube, **kw):
 
 def queries(tier):
     qs = []
-    ps = [I('fmt', 0, 2), I('i0', 0, 2), I('i1', 0, 2), I('nm', 0, 3), B('a2'), I('att', 0, 2)]
+    ps = [I('fmt', 0, 2), I('i0', 0, 2), I('i1', 0, 2), I('nm', 0, 4), B('a2'), I('att', 0, 2)]
     qs.append(Query(name='ids', body=body_ids, params=ps, split=['fmt'], timeout=500, pre=['not (i0 == 0 and i1 == 1)'],
                     witnesses=[({}, {'fmt': 0, 'i0': 1, 'i1': 1, 'nm': 2, 'a2': True, 'att': 2}),
                                ({}, {'fmt': 1, 'i0': 2, 'i1': 2, 'nm': 3, 'a2': False, 'att': 1})],
                     bound='L_INH model: asset 0 (G1) with id from %s and name from %r, asset 1 (O) with id from %s (0 not first, gaps, negative), optional third asset, '
                           '0-2 attackers with several entry points, one L link; formats %s' % (ID0, NAMES, ID1, FMT)))
-    ps = [I('fmt', 0, 2), I('dp', 0, 2), I('dg', 0, 1), I('do', 0, 2), B('xa'), B('xl'), B('l0'), B('l1'), B('l2'), I('att', 0, 2)]
-    qs.append(Query(name='attrs', body=body_attrs, params=ps, split=['fmt', 'xl'], timeout=500, pre=['do == 0 or (l2 and not l1)'],
-                    witnesses=[({}, {'fmt': 0, 'dp': 2, 'dg': 1, 'do': 1, 'xa': True, 'xl': True, 'l0': True, 'l1': False, 'l2': True, 'att': 2}),
-                               ({}, {'fmt': 2, 'dp': 1, 'dg': 0, 'do': 0, 'xa': True, 'xl': False, 'l0': True, 'l1': True, 'l2': False, 'att': 0})],
+    ps = [I('fmt', 0, 2), I('dp', 0, 2), I('dg', 0, 1), I('do', 0, 2), B('xa'), B('xl'), B('l0'), B('l1'), B('l2'), B('l3'), I('att', 0, 2)]
+    qs.append(Query(name='attrs', body=body_attrs, params=ps, split=['fmt', 'xl'], timeout=500, pre=['do == 0 or (l2 and not l1)', 'not l3 or (l0 + l1 + l2 <= 1)'],
+                    witnesses=[({}, {'fmt': 0, 'dp': 2, 'dg': 1, 'do': 1, 'xa': True, 'xl': True, 'l0': False, 'l1': False, 'l2': True, 'l3': True, 'att': 2}),
+                               ({}, {'fmt': 2, 'dp': 1, 'dg': 0, 'do': 0, 'xa': True, 'xl': False, 'l0': True, 'l1': True, 'l2': False, 'l3': False, 'att': 0})],
                     bound='3-asset L_INH model: defense picks dP %s, dG %s (+ dA on the third asset; dP of the O asset, same name as the dP of G1 but default 0, left / set to 1.0 / 0.5), asset extras, association extras, every subset of links '
                           'L (two members in one field), Dup_G1_O + Dup_G2_O (duplicate-named classes), L2; 0-2 attackers; formats %s' % (DPV, DGV, FMT)))
     ps = [I('perm', 0, 5), B('short'), I('via', 0, 3)]
